@@ -4,7 +4,7 @@ from __future__ import annotations
 from datetime import datetime
 from typing import Optional
 
-from pydantic import BaseModel
+from pydantic import BaseModel, field_serializer
 
 from primaite.simulator.network.protocols.packet import DataPacket
 
@@ -14,6 +14,11 @@ class NTPReply(BaseModel):
 
     ntp_datetime: datetime
     "NTP datetime object set by NTP Server."
+
+    @field_serializer("ntp_datetime", when_used="json")
+    def _serialise_ntp_datetime(self, value: datetime) -> str:
+        """Always write the microsecond field, so that the size of the frame carrying the reply does not depend on the clock."""
+        return value.isoformat(timespec="microseconds")
 
 
 class NTPPacket(DataPacket):
